@@ -879,7 +879,29 @@ class Emitter:
                 loc = 'byval_' + cid(n)
                 s.decls[loc] = s.cty(info['byval'])
                 s.body.append('  %s = *%s; %s = &%s;' % (loc, cid(n), cid(n), loc))
-        for (lab, ins) in parsed:
+        # Emit the blocks in reverse post-order of the CFG, so that the only backward gotos are genuine loop back edges:
+        # CBMC treats EVERY backward goto as a loop and unwinds it, and clang's block layout is not topological.
+        succ = {}
+        for (lab, lines) in f.blocks:
+            term = lines[-1] if lines else ''
+            succ[lab] = [m.lstrip('%').strip('"') for m in re.findall(r'label (%(?:"[^"]*"|[-a-zA-Z$._0-9]+))', term)]
+        order = []; seen = set()
+        entry = f.blocks[0][0]
+        stack = [(entry, iter(succ.get(entry, [])))]; seen.add(entry)
+        while stack:
+            lab, it = stack[-1]
+            nxt = None
+            for t in it:
+                if t not in seen and t in succ:
+                    nxt = t; break
+            if nxt is None:
+                order.append(lab); stack.pop()
+            else:
+                seen.add(nxt); stack.append((nxt, iter(succ.get(nxt, []))))
+        order.reverse()
+        byname = {lab.strip('"'): (lab, ins) for (lab, ins) in parsed}
+        ordered = [byname[l] for l in order if l in byname]
+        for (lab, ins) in ordered:
             s.body.append('%s: ;' % s.lab(lab))
             for i in ins:
                 s.emit_inst(i, lab)
@@ -1464,7 +1486,7 @@ def main():
     # function inventory for the evidence files
     if '--list' in sys.argv:
         for fn in M.forder:
-            if M.funcs[fn].defined: print(fn[1:])
+            if M.funcs[fn].defined: print('%s\t%s' % (cid(fn), fn[1:].strip('"')))
 
 if __name__ == '__main__':
     main()
